@@ -38,7 +38,8 @@ RULE = (
     "(class, codes, value letters, ngroups, mask, execution, code dtype)."
 )
 ASSUMPTIONS = [
-    "tasks are atomic (numba nogil kernels); no pre-emption inside a task body",
+    "task bodies are atomic in the task-atomic pool model and pre-empted only at Python line events of groupby_lib frames in the pre-emptive model (one fault-free run in three); compiled kernels and pandas / NumPy calls are never split",
+    "statement-level faults are line-granular (DESIGN 9.4)",
     "NUMBA_BOUNDSCHECK=1: an out-of-bounds kernel access raises instead of reading the heap",
     "int64 `sum` cells containing int64.min are compared ndarray-vs-ndarray only (container-dependent null convention, not stated by the property)",
     "sampling, not enumeration: the bounded space named by the property is hit by ~70% of the runs but not enumerated",
